@@ -14,6 +14,10 @@ type ctx struct {
 	brk      func() *cstmt // nil: a break cannot be rendered here
 	cont     func() *cstmt
 	noReturn bool
+	// variables of the block an `if` stands in that its branches assign: inside the branch with the
+	// given block id the assignment re-binds the variable (the rest of the enclosing block is
+	// translated inside the branch, so the new binding reaches everything the Go assignment reaches)
+	rebind map[*binding]int
 }
 
 func hasExit(n ast.Node) bool {
@@ -85,7 +89,7 @@ func (t *tr) list(stmts []ast.Stmt, sc *scope, blk int, c ctx, k func() *cstmt) 
 	case *ast.EmptyStmt:
 		return rest(sc)()
 	case *ast.ExprStmt, *ast.AssignStmt, *ast.DeclStmt, *ast.IncDecStmt:
-		effs, sc2 := t.simple(s, sc, blk)
+		effs, sc2 := t.simple(s, sc, blk, c)
 		return seqEffs(effs, rest(sc2))
 	case *ast.ReturnStmt:
 		if c.noReturn {
@@ -120,13 +124,13 @@ func (t *tr) list(stmts []ast.Stmt, sc *scope, blk int, c ctx, k func() *cstmt) 
 		a := t.list(s.List, sc, t.newBlk(), c, skipK)
 		return seq(a, rest(sc)())
 	case *ast.IfStmt:
-		return t.ifStmt(s, sc, c, rest(sc))
+		return t.ifStmt(s, sc, blk, c, rest(sc))
 	case *ast.SwitchStmt:
 		return t.switchStmt(s, sc, c, rest(sc))
 	case *ast.TypeSwitchStmt:
 		return t.typeSwitch(s, sc, c, rest(sc))
 	case *ast.RangeStmt:
-		return t.rangeStmt(s, sc, c, rest(sc))
+		return t.rangeStmt(s, sc, blk, c, rest(sc))
 	case *ast.ForStmt:
 		if !t.pureNode(s, t.trackedNames(sc)) {
 			t.refuse(s, "for loop with operations on tracked values")
@@ -145,7 +149,7 @@ type rhsVal struct {
 	tv   *tval
 	kind int // binding kind when tv == nil
 	path []string
-	ok   *binding
+	ok   *binding // a template binding (bOk, bTypeOf, bKind)
 }
 
 func (t *tr) bindName(lhs ast.Expr, tok token.Token, v rhsVal, sc *scope, blk int, effs *[]eff) *scope {
@@ -230,7 +234,7 @@ func (t *tr) isPkgCall(e ast.Expr, sc *scope, pkg, fn string) (*ast.CallExpr, bo
 	return c, true
 }
 
-func (t *tr) simple(s ast.Stmt, sc *scope, blk int) ([]eff, *scope) {
+func (t *tr) simple(s ast.Stmt, sc *scope, blk int, c ctx) ([]eff, *scope) {
 	var effs []eff
 	switch s := s.(type) {
 	case *ast.ExprStmt:
@@ -263,14 +267,14 @@ func (t *tr) simple(s ast.Stmt, sc *scope, blk int) ([]eff, *scope) {
 				for i, n := range sp.Names {
 					lhs[i] = n
 				}
-				sc = t.assign(lhs, sp.Values, token.VAR, s, sc, blk, &effs)
+				sc = t.assign(lhs, sp.Values, token.VAR, s, sc, blk, c, &effs)
 			case *ast.TypeSpec:
 				sc = t.declare(sc, sp.Name.Name, &binding{kind: bUntracked, blk: blk})
 			}
 		}
 		return effs, sc
 	case *ast.AssignStmt:
-		sc = t.assign(s.Lhs, s.Rhs, s.Tok, s, sc, blk, &effs)
+		sc = t.assign(s.Lhs, s.Rhs, s.Tok, s, sc, blk, c, &effs)
 		return effs, sc
 	}
 	t.refuse(s, "statement form %T", s)
@@ -317,7 +321,7 @@ func (t *tr) deleteStmt(c *ast.CallExpr, sc *scope, blk int) ([]eff, *scope) {
 	return []eff{{kind: 1, x: nb.coq, e: ntv.e}}, sc
 }
 
-func (t *tr) assign(lhs, rhs []ast.Expr, tok token.Token, at ast.Node, sc *scope, blk int, effs *[]eff) *scope {
+func (t *tr) assign(lhs, rhs []ast.Expr, tok token.Token, at ast.Node, sc *scope, blk int, c ctx, effs *[]eff) *scope {
 	untr := rhsVal{kind: bUntracked}
 	errF := rhsVal{kind: bErrFalse}
 	if tok != token.DEFINE && tok != token.ASSIGN && tok != token.VAR {
@@ -421,18 +425,110 @@ func (t *tr) assign(lhs, rhs []ast.Expr, tok token.Token, at ast.Node, sc *scope
 			}
 		}
 	}
-	for i := range lhs {
-		if tv, ok := t.tracked(rhs[i], sc); ok {
-			if tv.st == stJSON || true {
-				tv := tv
-				sc = t.bindName(lhs[i], tok, rhsVal{tv: &tv}, sc, blk, effs)
-				continue
+	if len(lhs) == 1 && tok == token.ASSIGN {
+		if id, ok := lhs[0].(*ast.Ident); ok {
+			if old := sc.lookup(id.Name); old != nil && c.rebind != nil && c.rebind[old] == blk && blk != 0 {
+				if t.rebindTo(old, id.Name, rhs[0], sc, effs) {
+					return sc
+				}
 			}
+		}
+	}
+	for i := range lhs {
+		if tb, ok := t.typeOfExpr(rhs[i], sc); ok {
+			sc = t.bindName(lhs[i], tok, rhsVal{ok: tb}, sc, blk, effs)
+			continue
+		}
+		if kb, ok := t.kindExpr(rhs[i], sc); ok {
+			sc = t.bindName(lhs[i], tok, rhsVal{ok: kb}, sc, blk, effs)
+			continue
+		}
+		if tv, ok := t.tracked(rhs[i], sc); ok {
+			tv := tv
+			sc = t.bindName(lhs[i], tok, rhsVal{tv: &tv}, sc, blk, effs)
+			continue
 		}
 		*effs = append(*effs, t.effects(rhs[i], sc)...)
 		sc = t.bindName(lhs[i], tok, untr, sc, blk, effs)
 	}
 	return sc
+}
+
+// rebindTo: an assignment x = e in a branch of an `if` that stands in the block of x, for e a
+// tracked expression, a string constant (x a tracked interface{} / string) or a reflect.Kind the
+// translator follows.  The binding is changed in place; ifStmt restores it after the branch.
+func (t *tr) rebindTo(old *binding, name string, rhs ast.Expr, sc *scope, effs *[]eff) bool {
+	if kb, ok := t.kindExpr(rhs, sc); ok && (old.kind == bUntracked || old.kind == bKind) {
+		blk := old.blk
+		*old = *kb
+		old.blk = blk
+		return true
+	}
+	if old.kind != bTracked {
+		return false
+	}
+	if tv, ok := t.tracked(rhs, sc); ok {
+		if tv.st != old.st && old.st != stIface {
+			return false
+		}
+		coq := sc.fresh(name)
+		*effs = append(*effs, eff{kind: 1, x: coq, e: tv.e})
+		old.coq, old.ojg, old.root, old.parent, old.stale = coq, tv.ojg, tv.root, tv.from, tv.stale
+		return true
+	}
+	if sv, ok := t.strLit(rhs, sc); ok && printableASCII(sv) && (old.st == stIface || old.st == stStr) {
+		coq := sc.fresh(name)
+		*effs = append(*effs, eff{kind: 1, x: coq, e: &cexpr{op: "str", k: sv}})
+		old.coq, old.ojg, old.root, old.parent, old.stale = coq, false, t.newRoot(), nil, ""
+		return true
+	}
+	return false
+}
+
+// candidates for rebindTo: variables of block blk assigned at the top level of a branch of s
+func (t *tr) rebindable(s *ast.IfStmt, sc *scope, blk int) []*binding {
+	var out []*binding
+	scan := func(list []ast.Stmt) {
+		for _, st := range list {
+			as, ok := st.(*ast.AssignStmt)
+			if !ok || as.Tok != token.ASSIGN || len(as.Lhs) != 1 || len(as.Rhs) != 1 {
+				continue
+			}
+			id, ok := as.Lhs[0].(*ast.Ident)
+			if !ok {
+				continue
+			}
+			old := sc.lookup(id.Name)
+			if old == nil || old.blk != blk {
+				continue
+			}
+			switch old.kind {
+			case bTracked:
+				_, lit := t.strLit(as.Rhs[0], sc)
+				mentions := false
+				names := t.trackedNames(sc)
+				ast.Inspect(as.Rhs[0], func(n ast.Node) bool {
+					if x, ok := n.(*ast.Ident); ok && names[x.Name] {
+						mentions = true
+					}
+					return true
+				})
+				if lit || mentions {
+					out = append(out, old)
+				}
+			case bUntracked, bKind:
+				r := exprString(t.p.fset, as.Rhs[0])
+				if len(r) > 8 && r[:8] == "reflect." {
+					out = append(out, old)
+				}
+			}
+		}
+	}
+	scan(s.Body.List)
+	if el, ok := s.Else.(*ast.BlockStmt); ok {
+		scan(el.List)
+	}
+	return out
 }
 
 // ------------------------------------------------------------------------------ conditions
@@ -470,6 +566,20 @@ func (t *tr) lenOf(e ast.Expr, sc *scope) (*ast.Ident, tval, bool) {
 	return id, x, true
 }
 
+// len(x) for x the JSON text (json.Marshal) of a tracked value
+func (t *tr) lenOfJSON(e ast.Expr, sc *scope) bool {
+	c, ok := unparen(e).(*ast.CallExpr)
+	if !ok || len(c.Args) != 1 {
+		return false
+	}
+	f, ok := c.Fun.(*ast.Ident)
+	if !ok || f.Name != "len" || sc.lookup("len") != nil {
+		return false
+	}
+	x, ok := t.tracked(c.Args[0], sc)
+	return ok && x.st == stJSON
+}
+
 func (t *tr) classify(e ast.Expr, sc *scope) cond {
 	e = unparen(e)
 	switch e := e.(type) {
@@ -502,6 +612,10 @@ func (t *tr) classify(e ast.Expr, sc *scope) cond {
 							return cond{kind: "const", val: eq}
 						}
 					}
+					if tb, ok := t.typeOfExpr(a, sc); ok {
+						// reflect.TypeOf(x) == nil iff x == nil
+						return cond{kind: "nil", pos: eq, e: eVar(tb.symVar)}
+					}
 					if x, ok := t.tracked(a, sc); ok {
 						if x.st == stStr || x.st == stNum || x.st == stBool || x.st == stJSON {
 							t.refuse(e, "nil comparison of a tracked value that cannot be nil")
@@ -519,6 +633,16 @@ func (t *tr) classify(e ast.Expr, sc *scope) cond {
 						t.use(e, x)
 						return cond{kind: "numeq", pos: eq, e: x.e, z: z}
 					}
+					if s, ok := t.strLit(o, sc); ok && x.st == stIface && printableASCII(s) {
+						// an interface{} compared with a string: false (no panic) when it holds no string
+						t.use(e, x)
+						return cond{kind: "ifacestr", pos: eq, e: x.e, s: s, name: strconv.Itoa(t.line(e))}
+					}
+				}
+				if t.lenOfJSON(a, sc) {
+					if z, ok := t.intLit(o, sc); ok && z == 0 {
+						return cond{kind: "const", val: !eq} // the JSON text of a value is never empty
+					}
 				}
 				if id, x, ok := t.lenOf(a, sc); ok {
 					if z, ok := t.intLit(o, sc); ok && z == 0 {
@@ -531,7 +655,7 @@ func (t *tr) classify(e ast.Expr, sc *scope) cond {
 		if e.Op == token.GTR || e.Op == token.GEQ || e.Op == token.LSS || e.Op == token.LEQ {
 			// normalise to len(x) OP n
 			a, o, op := e.X, e.Y, e.Op
-			if _, _, ok := t.lenOf(a, sc); !ok {
+			if _, _, ok := t.lenOf(a, sc); !ok && !t.lenOfJSON(a, sc) {
 				a, o = o, a
 				switch op {
 				case token.GTR:
@@ -542,6 +666,16 @@ func (t *tr) classify(e ast.Expr, sc *scope) cond {
 					op = token.GTR
 				case token.LEQ:
 					op = token.GEQ
+				}
+			}
+			if t.lenOfJSON(a, sc) {
+				if z, ok := t.intLit(o, sc); ok {
+					switch {
+					case op == token.GTR && z == 0, op == token.GEQ && z == 1:
+						return cond{kind: "const", val: true}
+					case op == token.LSS && z == 1, op == token.LEQ && z == 0:
+						return cond{kind: "const", val: false}
+					}
 				}
 			}
 			if id, x, ok := t.lenOf(a, sc); ok {
@@ -581,8 +715,18 @@ func (t *tr) branch(at ast.Node, cd cond, sc *scope, thenF, elseF func(sc *scope
 		return elseF(sc)
 	case "nil":
 		a := pick(true)(sc)
-		b := pick(false)(sc)
+		nsc := sc
+		if cd.e.op == "var" {
+			nsc = sc.with("nonnil:"+cd.e.x, &binding{kind: bUntracked})
+		}
+		b := pick(false)(nsc)
 		return &cstmt{op: "ifnil", e: cd.e, a: a, b: b}
+	case "ifacestr":
+		tmp := sc.fresh("str@" + cd.name)
+		a := pick(true)(sc)
+		b := pick(false)(sc)
+		b2 := pick(false)(sc)
+		return &cstmt{op: "ifok", x: tmp, e: cd.e, t: "TyStr", a: &cstmt{op: "ifstr", e: eVar(tmp), s: cd.s, a: a, b: b}, b: b2}
 	case "ok":
 		a := pick(true)(sc)
 		b := pick(false)(sc)
@@ -607,19 +751,43 @@ func (t *tr) branch(at ast.Node, cd cond, sc *scope, thenF, elseF func(sc *scope
 	return seqEffs(cd.effs, func() *cstmt { return a })
 }
 
-func (t *tr) ifStmt(s *ast.IfStmt, sc *scope, c ctx, rest func() *cstmt) *cstmt {
-	exits := hasExit(s.Body) || (s.Else != nil && hasExit(s.Else))
+func (t *tr) ifStmt(s *ast.IfStmt, sc *scope, blk int, c ctx, rest func() *cstmt) *cstmt {
+	reb := t.rebindable(s, sc, blk)
+	exits := hasExit(s.Body) || (s.Else != nil && hasExit(s.Else)) || len(reb) > 0
 	kb := skipK
 	if exits {
 		kb = rest
 	}
-	thenF := func(sc2 *scope) *cstmt { return t.list(s.Body.List, sc2, t.newBlk(), c, kb) }
+	// a branch may re-bind the variables in reb (in place); they are restored after it
+	inBranch := func(list []ast.Stmt, sc2 *scope) *cstmt {
+		b := t.newBlk()
+		c2 := c
+		if len(reb) > 0 {
+			c2.rebind = map[*binding]int{}
+			for k, v := range c.rebind {
+				c2.rebind[k] = v
+			}
+			for _, x := range reb {
+				c2.rebind[x] = b
+			}
+		}
+		saved := make([]binding, len(reb))
+		for i, x := range reb {
+			saved[i] = *x
+		}
+		r := t.list(list, sc2, b, c2, kb)
+		for i, x := range reb {
+			*x = saved[i]
+		}
+		return r
+	}
+	thenF := func(sc2 *scope) *cstmt { return inBranch(s.Body.List, sc2) }
 	elseF := func(sc2 *scope) *cstmt {
 		switch el := s.Else.(type) {
 		case nil:
 			return kb()
 		case *ast.BlockStmt:
-			return t.list(el.List, sc2, t.newBlk(), c, kb)
+			return inBranch(el.List, sc2)
 		default:
 			return t.list([]ast.Stmt{el}, sc2, t.newBlk(), c, kb)
 		}
@@ -672,7 +840,7 @@ func (t *tr) ifStmt(s *ast.IfStmt, sc *scope, c ctx, rest func() *cstmt) *cstmt 
 	isc := sc
 	var initEffs []eff
 	if s.Init != nil {
-		initEffs, isc = t.simple(s.Init, sc, t.newBlk())
+		initEffs, isc = t.simple(s.Init, sc, t.newBlk(), ctx{})
 	}
 	r := seqEffs(initEffs, func() *cstmt {
 		cd := t.classify(s.Cond, isc)
@@ -716,7 +884,7 @@ func (t *tr) switchStmt(s *ast.SwitchStmt, sc *scope, c ctx, rest func() *cstmt)
 	isc := sc
 	var initEffs []eff
 	if s.Init != nil {
-		initEffs, isc = t.simple(s.Init, sc, t.newBlk())
+		initEffs, isc = t.simple(s.Init, sc, t.newBlk(), ctx{})
 	}
 	if s.Tag == nil {
 		t.refuse(s, "switch without a tag")
@@ -739,6 +907,9 @@ func (t *tr) switchStmt(s *ast.SwitchStmt, sc *scope, c ctx, rest func() *cstmt)
 		return t.list(b, isc, t.newBlk(), c2, kAfter)
 	}
 	r := seqEffs(initEffs, func() *cstmt {
+		if kb, ok := t.kindExpr(s.Tag, isc); ok {
+			return t.kindSwitch(s, kb, cases, def, isc, c2, kAfter)
+		}
 		tv, ok := t.tracked(s.Tag, isc)
 		if !ok {
 			// a switch on untracked data: every way through it must do the same to tracked values
@@ -809,6 +980,102 @@ func (t *tr) switchStmt(s *ast.SwitchStmt, sc *scope, c ctx, rest func() *cstmt)
 	return finish(r)
 }
 
+// a switch on a reflect.Kind the translator follows: a constant selects its clause; the kind of
+// a non-nil decoded JSON value is Bool / Float64 / String / Slice / Map according to its type, so
+// each clause is a dynamic type test (SIfOk); fallthrough continues with the next clause's body
+func (t *tr) kindSwitch(s *ast.SwitchStmt, kb *binding, cases []*ast.CaseClause, def *ast.CaseClause, sc *scope, c ctx, kAfter func() *cstmt) *cstmt {
+	var order []*ast.CaseClause
+	for _, cc := range s.Body.List {
+		order = append(order, cc.(*ast.CaseClause))
+	}
+	var bodyOf func(cl *ast.CaseClause) []ast.Stmt
+	bodyOf = func(cl *ast.CaseClause) []ast.Stmt {
+		b, fall := clauseBody(cl)
+		if !fall {
+			return b
+		}
+		for i, x := range order {
+			if x == cl && i+1 < len(order) {
+				return append(append([]ast.Stmt{}, b...), bodyOf(order[i+1])...)
+			}
+		}
+		t.refuse(cl, "fallthrough in the last clause")
+		return nil
+	}
+	kindsOf := func(cl *ast.CaseClause) []string {
+		var out []string
+		for _, e := range cl.List {
+			k, ok := t.kindExpr(e, sc)
+			if !ok || k.kconst == "" {
+				t.refuse(e, "case of a switch on a reflect.Kind that is not a reflect constant")
+			}
+			out = append(out, k.kconst)
+		}
+		return out
+	}
+	run := func(cl *ast.CaseClause) *cstmt { return t.list(bodyOf(cl), sc, t.newBlk(), c, kAfter) }
+	if kb.kconst != "" {
+		for _, cl := range cases {
+			for _, k := range kindsOf(cl) {
+				if k == kb.kconst {
+					return run(cl)
+				}
+			}
+		}
+		if def != nil {
+			return run(def)
+		}
+		return kAfter()
+	}
+	vb := kb.symFrom
+	if vb == nil || vb.coq != kb.symVar || vb.stale != "" {
+		t.refuse(s, "switch on the kind of a variable that has changed since")
+	}
+	t.reads = append(t.reads, vb)
+	var chain func(i int, tys []string) *cstmt
+	chain = func(i int, tys []string) *cstmt {
+		if len(tys) == 0 {
+			if i >= len(cases) {
+				if def != nil {
+					return run(def)
+				}
+				return kAfter()
+			}
+			var next []string
+			for _, k := range kindsOf(cases[i]) {
+				if ty := reflectKinds[k]; ty != "" {
+					next = append(next, ty)
+				}
+			}
+			if len(next) == 0 {
+				return chain(i+1, nil) // no decoded value has one of these kinds
+			}
+			return chainTy(t, cases[i], next, vb, kb, run, func() *cstmt { return chain(i+1, nil) })
+		}
+		return nil
+	}
+	return chain(0, nil)
+}
+
+func chainTy(t *tr, cl *ast.CaseClause, tys []string, vb, kb *binding, run func(*ast.CaseClause) *cstmt, next func() *cstmt) *cstmt {
+	if len(tys) == 0 {
+		return next()
+	}
+	ty := tys[0]
+	if kb.symOjg && ty == "TyNum" {
+		t.refuse(cl, "reflect.Float64 case on a value parsed by ojg")
+	}
+	// inside the clause the variable is known to have the type: it is re-bound (in place) to the tested value
+	saved := *vb
+	orig := vb.coq
+	vb.coq = orig + "'" + ty[2:]
+	name := vb.coq
+	a := run(cl)
+	*vb = saved
+	b := chainTy(t, cl, tys[1:], vb, kb, run, next)
+	return &cstmt{op: "ifok", x: name, e: eVar(orig), t: ty, a: a, b: b}
+}
+
 func (t *tr) typeSwitch(s *ast.TypeSwitchStmt, sc *scope, c ctx, rest func() *cstmt) *cstmt {
 	exits := false
 	for _, cc := range s.Body.List {
@@ -827,7 +1094,7 @@ func (t *tr) typeSwitch(s *ast.TypeSwitchStmt, sc *scope, c ctx, rest func() *cs
 	isc := sc
 	var initEffs []eff
 	if s.Init != nil {
-		initEffs, isc = t.simple(s.Init, sc, t.newBlk())
+		initEffs, isc = t.simple(s.Init, sc, t.newBlk(), ctx{})
 	}
 	var vname string
 	var ta *ast.TypeAssertExpr
@@ -929,8 +1196,88 @@ func (t *tr) typeSwitch(s *ast.TypeSwitchStmt, sc *scope, c ctx, rest func() *cs
 
 // ------------------------------------------------------------------------------ range
 
-func (t *tr) rangeStmt(s *ast.RangeStmt, sc *scope, c ctx, rest func() *cstmt) *cstmt {
+// `for k := range m { keys = append(keys, k) }` for a tracked map variable m and a []string of the
+// same block: keys holds exactly the keys of m
+func (t *tr) keyCollector(s *ast.RangeStmt, x tval, sc *scope, blk int) bool {
+	if s.Value != nil || s.Key == nil || s.Tok != token.DEFINE || len(s.Body.List) != 1 || x.e.op != "var" || x.from == nil {
+		return false
+	}
+	k, ok := s.Key.(*ast.Ident)
+	mid, ok2 := unparen(s.X).(*ast.Ident)
+	as, ok3 := s.Body.List[0].(*ast.AssignStmt)
+	if !ok || !ok2 || !ok3 || as.Tok != token.ASSIGN || len(as.Lhs) != 1 || len(as.Rhs) != 1 {
+		return false
+	}
+	dst, ok := as.Lhs[0].(*ast.Ident)
+	call, ok2 := as.Rhs[0].(*ast.CallExpr)
+	if !ok || !ok2 || len(call.Args) != 2 {
+		return false
+	}
+	f, ok := call.Fun.(*ast.Ident)
+	a0, ok2 := call.Args[0].(*ast.Ident)
+	a1, ok3 := call.Args[1].(*ast.Ident)
+	if !ok || !ok2 || !ok3 || f.Name != "append" || sc.lookup("append") != nil || a0.Name != dst.Name || a1.Name != k.Name {
+		return false
+	}
+	kb := sc.lookup(dst.Name)
+	if kb == nil || kb.kind != bUntracked || kb.blk != blk {
+		return false
+	}
+	kb.kind, kb.symVar, kb.symFrom, kb.symName, kb.symOjg = bKeys, x.e.x, x.from, mid.Name, x.ojg
+	return true
+}
+
+// `for _, key := range keys` for keys as above: a loop over the map (the order - the keys may have
+// been sorted - is not modelled); inside, m[key] is the value
+func (t *tr) keysRange(s *ast.RangeStmt, kb *binding, sc *scope, rest func() *cstmt) *cstmt {
+	mb := sc.lookup(kb.symName)
+	if mb == nil || mb != kb.symFrom || mb.stale != "" || mb.coq != kb.symVar || mb.st != stMap {
+		t.refuse(s, "range over the collected keys of a map that has changed since")
+	}
+	if s.Tok != token.DEFINE || s.Value == nil {
+		t.refuse(s, "range over the collected keys of a map without a value variable")
+	}
+	vid, ok := s.Value.(*ast.Ident)
+	if !ok || vid.Name == "_" {
+		t.refuse(s, "range over the collected keys of a map without a value variable")
+	}
+	r0, s0 := len(t.reads), len(t.stales)
+	t.reads = append(t.reads, mb)
+	blk := t.newBlk()
+	bsc := sc
+	if kid, ok := s.Key.(*ast.Ident); ok && kid.Name != "_" {
+		bsc = t.declare(bsc, kid.Name, &binding{kind: bUntracked, blk: blk})
+	}
+	keyb := t.trackedBinding(bsc, vid.Name, tval{st: stStr, root: t.newRoot()}, blk, false)
+	bsc = t.declare(bsc, vid.Name, keyb)
+	idx := kb.symName + "[" + vid.Name + "]"
+	valb := t.trackedBinding(bsc, idx, tval{st: stIface, ojg: mb.ojg, root: mb.root, from: mb}, blk, false)
+	bsc = t.declare(bsc, idx, valb)
+	body := t.list(s.Body.List, bsc, blk, ctx{cont: skipK, noReturn: true}, skipK)
+	for _, b := range t.stales[s0:] {
+		if b.blk >= blk {
+			continue
+		}
+		for _, r := range t.reads[r0:] {
+			if r == b {
+				t.refuse(s, "the loop body reads a variable it invalidates for the next iteration (%s)", b.stale)
+			}
+		}
+	}
+	return seq(&cstmt{op: "forobj", x: keyb.coq, y: valb.coq, e: eVar(mb.coq), a: body}, rest())
+}
+
+func (t *tr) rangeStmt(s *ast.RangeStmt, sc *scope, lblk int, c ctx, rest func() *cstmt) *cstmt {
+	if id, ok := unparen(s.X).(*ast.Ident); ok {
+		if kb := sc.lookup(id.Name); kb != nil && kb.kind == bKeys {
+			return t.keysRange(s, kb, sc, rest)
+		}
+	}
 	x, ok := t.tracked(s.X, sc)
+	if ok && x.st == stMap && t.keyCollector(s, x, sc, lblk) {
+		t.use(s, x)
+		return rest()
+	}
 	if !ok {
 		if !t.pureNode(s.Body, t.trackedNames(sc)) {
 			t.refuse(s, "loop over untracked data with operations on tracked values")
